@@ -6,7 +6,7 @@ PROPS = {
         'not_decided': [
             'which HTLCs are in the next commitment (get_next_commitment_htlcs, two-phase commit, holding cell, reestablish)',
             'agreement between the two nodes; absence of signature failures / force closes',
-            'the sorted insertion of the non-HTLC outputs and the fix-up of the HTLC output indices in build_outputs_and_htlcs (iterator adapters; the HTLC sort, the output set and the second-stage transactions are under contract)', 'script contents (uninterpreted)',
+            'the position at which build_outputs_and_htlcs inserts a non-HTLC output (binary_search_by; the HTLC sort, the index fix-up, the output set and the second-stage transactions are under contract)', 'script contents (uninterpreted)',
         ],
     },
     'C02': {
